@@ -46,6 +46,14 @@ claim("C11",
       "Trusted: method sets and signatures as printed by go/types (implements = inclusion of (id, signature) pairs, exact for method-only interfaces; constraint interfaces are not generated); the graph walker.",
       "Coq proof (filter/sort/permutation lemmas) + table and graph correspondence + types.Implements oracle", "DESIGN.md §5 C11")
 
+claim("C12",
+      "Coq theorems about the one-level classifier (model of createType) and the closure it generates: every result entry is the classification of its position, the result is closed under links and contains every source declaration, "
+      "each node is faithful to the go/types type at its position (kind, array length, key/element, basic kind) and its Type() reconstruction is that type with time.Time reported as predefined. "
+      "Tied to /repo by walking the real analysis graph from Source and from every Types entry with the go/types type of each position in hand and comparing node by node with the model closure; "
+      "faithfulness / closure / source order are also evaluated in Coq on the observed graph alone. Termination of the real memoised DFS is observed per case (child process, timeout), and modelled by fuel: partial in that respect.",
+      "Trusted: the facts extractor and graph walker; the closure model abstracts the memo table (structural positions instead of type-object identity) - the memoised DFS's termination is not proved, only observed.",
+      "Coq proof (closure soundness/closedness by induction on fuel) + node-by-node graph correspondence", "DESIGN.md §5 C12")
+
 NOT_YET = "check not built yet in this round (planned, see DESIGN.md §6)"
 
 checks, na = [], []
